@@ -472,7 +472,15 @@ impl<SD, E: Exfiltrator> SignalIterator<SD, E> {
 
             match self.signals.borrow_mut().poll_pending(has_signals) {
                 Ok(Some(pending)) => self.iter = pending,
-                Ok(None) => return PollResult::Pending,
+                Ok(None) => {
+                    // poll_pending doesn't consult the callback if the instance got closed since
+                    // the check above. Reporting Pending then would leave the caller without any
+                    // wakeup armed, so report the closing instead.
+                    if self.signals.borrow_mut().handle.is_closed() {
+                        return PollResult::Closed;
+                    }
+                    return PollResult::Pending;
+                }
                 Err(err) => return PollResult::Err(err),
             }
         }
